@@ -212,3 +212,13 @@ def sdump(node, _depth=0):
     if isinstance(node, (str, bytes, int, float, complex, bool, type(None), type(Ellipsis))):
         return repr(node)
     return f"<{type(node).__name__}>"
+
+
+_SCHEME = __import__("re").compile(r"^(_var\d+|result\d*|UNPICKLER)$")
+
+
+def scheme_name_collision(o):
+    """The pickle names a global whose attribute name is one of the decompiler's own identifiers
+    (_varN, result, UNPICKLER): the bare name in the decompile is captured by fickling's variable."""
+    return any(ev[0] == "import" and _SCHEME.match(ev[2]) for ev in o.ref_log.events) or any(
+        ev[0] == "call" and ev[1][0] == "glob" and _SCHEME.match(ev[1][2]) for ev in o.ref_log.events)
